@@ -139,6 +139,26 @@ def run_purity(shard, tier, res, mod):
                         res.outcomes['caller data modified'] += 1
                     elif k == 'ok':
                         res.outcomes['pure'] += 1
+                if kind == 'ct_off':
+                    # (b) for the dense-time offline monitor: d1, d2, d1 on ONE object
+                    sigs = [kinds.grid_signal(w) for w in traces[-6:]] + [{v: [(0.0, 2.0), (0.5, -1.0), (2.5, 2.0)] for v in vs}]
+                    for i, j in itertools.permutations(range(len(sigs)), 2):
+                        if (i + j) % (3 if tier == 'quick' else 1):
+                            continue
+                        a1 = [[v, [[t, x] for t, x in sigs[i][v]]] for v in vs]
+                        a2 = [[v, [[t, x] for t, x in sigs[j][v]]] for v in vs]
+                        s2 = impl.build('ct_off', text, vs)
+                        res.evaluations += 1
+                        r1 = impl.outcome(s2.evaluate, *copy.deepcopy(a1))
+                        impl.outcome(s2.evaluate, *copy.deepcopy(a2))
+                        r3 = impl.outcome(s2.evaluate, *copy.deepcopy(a1))
+                        if explore.snapshot(r1) != explore.snapshot(r3):
+                            res.violation(mod, {'mode': 'repeat_dense', 'formula': fj, 'spec': text, 'vars': vs, 'd1': a1, 'd2': a2},
+                                          'dense evaluate(d1) returned %r, after evaluate(d2) the same object returns %r for d1' % (r1[1], r3[1]))
+                            res.outcomes['not repeatable'] += 1
+                        else:
+                            res.outcomes['repeatable'] += 1
+                            res.nontrivial += 1
         res.digest(text)
     res.sample({'spec': 'out = always[0,5] x', 'data': {'time': [0, 1], 'x': [-1.0, 2.0]}, 'check': 'data set unchanged after evaluate(); d1,d2,d1 repeatable'}, 1)
 
@@ -369,6 +389,12 @@ def replay(case):
         d = copy.deepcopy(case['data'])
         impl.outcome(spec.evaluate, d)
         return [] if same_data(d, case['data']) else ['evaluate() modified the caller\'s data set: %r became %r' % (case['data'], d)]
+    if mode == 'repeat_dense':
+        s2 = impl.build('ct_off', case['spec'], case['vars'])
+        r1 = impl.outcome(s2.evaluate, *copy.deepcopy(case['d1']))
+        impl.outcome(s2.evaluate, *copy.deepcopy(case['d2']))
+        r3 = impl.outcome(s2.evaluate, *copy.deepcopy(case['d1']))
+        return [] if explore.snapshot(r1) == explore.snapshot(r3) else ['dense evaluate(d1) %r, after evaluate(d2): %r' % (r1, r3)]
     if mode == 'repeat':
         s2 = impl.build('dt_off', case['spec'], case['vars'])
         r1 = impl.outcome(s2.evaluate, copy.deepcopy(case['d1']))
